@@ -325,7 +325,10 @@ def check_err(cfg, crate, rep):
     # the remote signer specifically
     b = crate.body("key_pair::KeyPair::sign")
     remote = [(node, ps) for node, ps in common.hir_walk_p(b["hir"]) if node["k"] == "MethodCall" and (node.get("callee") or "").endswith("RemoteKeyPair::sign")]
-    rep.ob("C01.err", "%s|remote-sign" % cfg, len(remote) == 1 and _consumed(remote[0][0], remote[0][1]) == "?", "the remote signer's error is propagated with `?`", found=len(remote))
+    Ir = Interp(crate)
+    Ir.run_fn("key_pair::KeyPair::sign")
+    okp, whyp, nodep = common.err_propagates(Ir, "key_pair::KeyPair::sign", lambda c: c.endswith("RemoteKeyPair::sign"))
+    rep.ob("C01.err", "%s|remote-sign" % cfg, okp, "the remote signer's error is propagated: whenever RemoteKeyPair::sign returns Err, KeyPair::sign returns Err", found=whyp, sp=(nodep or {}).get("sp"))
 
 
 def _consumed(node, ps):
